@@ -437,8 +437,8 @@ def execute(history):
                     if int(m.row) > 0 and int(m.col) > 0 and M[int(m.row)][int(m.col)] > 0:
                         add(check_path(m.path, (int(m.row), int(m.col)), M, U, None, "best_match", check_disjoint=False), opi)
                 elif kind == "wp_slice":
-                    if lc._wp is None or not magnitudes:
-                        continue
+                    if lc._wp is None or not magnitudes or U or any(s2["started"] and not s2["done"] for s2 in streams.values()):
+                        continue       # how consumed cells are marked is not specified: compared only while nothing is consumed
                     sl = lc.wp_slice()
                     bump("op:wp_slice")
                     A = np.ma.getdata(sl) if isinstance(sl, np.ma.MaskedArray) else np.asarray(sl)
